@@ -184,6 +184,7 @@ pub fn parse_one<'a, I: Kind<'a>, E: ErrTy<'a, I>, Pz: Parser<'a, I, Val, crate:
     let cr0 = val::created();
     let mut st = St::default();
     let mut o = Obs::default();
+    crate::insp::FUEL.with(|f| f.set(crate::insp::budget(toks.len())));
     let res = catch_unwind(AssertUnwindSafe(|| {
         if mode == "E" {
             let r = p.parse_with_state(input, &mut st);
@@ -205,6 +206,8 @@ pub fn parse_one<'a, I: Kind<'a>, E: ErrTy<'a, I>, Pz: Parser<'a, I, Val, crate:
             (has_output, has_errors, result_ok, if has_output { Some(json!(["U"])) } else { None }, errs, live_with, 0)
         }
     }));
+    crate::insp::note_used(toks.len());
+    crate::insp::FUEL.with(|f| f.set(u64::MAX));
     o.events = take_log();
     let ph = prefix_hashes(toks);
     o.hash_ok = o.events.iter().all(|e| e.insp < ph.len() && ph[e.insp] == e.hash);
